@@ -22,8 +22,8 @@ CHECKS = {
     "C05": ("exploration", "5/C05", SIM + "; lockstep refinement of every likelihood table and result likelihood against a reference density",
             "Every likelihood table of every round and every likelihood in the result is compared with an independent "
             "slogdet-based Gaussian log-density under the model recorded in that round, with derived tolerances; a "
-            "determinant shard (NW up to 40, log-determinants down to about -1400) requires finite values. NW in the "
-            "hundreds is not reached."),
+            "determinant shard (NW up to 60, log-determinants down to about -1650) requires finite values; covariance floors "
+            "0..0.3; a quarter as many cases again in JIT-compiled worker interpreters. NW in the hundreds is not reached."),
     "C06": ("exploration", "5/C06", SIM + "; post-run accounting oracle on result + recorded final model",
             "Cost/likelihood accounting and list/aggregate consistency on every completed run of a swarm biased towards "
             "empty-cluster endings, limit-stopped and converged runs, scalar and per-pair beta, both front ends; the "
@@ -44,7 +44,9 @@ CHECKS = {
             "Each base seed is executed as reference (FIFO, 1 worker, fresh history), repeated, then under random simulated "
             "schedules (completion order, worker assignment, lazy/eager pickling, cold/warm worker caches, per-worker RNG "
             "copies), worker counts 1..8 with the switch off/on, and after random process histories (incl. failing "
-            "calls); results must be bit-identical. A few runs use the real fork pool with seeded delays (observation)."),
+            "calls, and hyper-parameter sweeps over the same data); results must be bit-identical. A second group of "
+            "long-lived interpreters runs the same seeds' reference call after other earlier calls (cross-process-history "
+            "comparison by the parent). A few runs use the real fork pool with seeded delays (observation)."),
     "C16": ("exploration", "5/C16", SIM + "; post-run oracle recomputing BIC from the recorded final model",
             "BIC recomputed from the definition (label-run parameter count, slogdet, trace term with the covariance each "
             "cluster was last fitted to) on every completed run incl. determinant shard; derived tolerance, finite whenever "
